@@ -316,7 +316,8 @@ def run(scn):
         return {'scn': scn, 'ev': ev}
     out, leak = a_out(ret)
     ev.append({'ev': 'Return', 'out': out, 'leak': leak})
-    return {'scn': scn, 'ev': ev}
+    # the concrete reply (text and codes) for the pairing of the halves (C11: the SAME response document)
+    return {'scn': scn, 'ev': ev, 'reply': ['nothing'] if ret is None else [ret[0], list(ret[1])]}
 
 
 if __name__ == '__main__':
